@@ -207,9 +207,12 @@ class QueryBuilder:
             self.query = an(entity(v, self.cond(tree["cond"])))
 
         def conclusion(node):
-            kwargs = {"a": self.var(1), "b": node["tag"]}
-            if nv > 1:
-                kwargs["c"] = self.var(2)
+            if self.q.get("concl") == "second":          # conclusions that mention the second variable only
+                kwargs = {"a": self.var(2), "b": node["tag"]}
+            else:
+                kwargs = {"a": self.var(1), "b": node["tag"]}
+                if nv > 1:
+                    kwargs["c"] = self.var(2)
             Add(v, world.P(**kwargs))
 
         def emit(node):
